@@ -336,8 +336,13 @@ class RealEngine(Engine):
                 # x * Inf = Inf
                 s = _signbit(x) != _signbit(y)
                 return Float(s=s, isinf=True, ctx=REAL)
+        elif _is_zero(x) or _is_zero(y):
+            # 0 * y = x * 0 = 0; the separate case keeps the sign of a zero
+            # factor, which a `Fraction` product cannot carry
+            s = _signbit(x) != _signbit(y)
+            return Float(s=s, c=0, ctx=REAL)
         else:
-            # both are finite
+            # both are finite and non-zero
             match x, y:
                 case Float(), Float():
                     r = x.as_real() * y.as_real()
